@@ -504,10 +504,13 @@ impl DhtNetworkManager {
     }
 
     async fn store_local_in_core(&self, key: Key, value: Vec<u8>, operation: &str) -> Result<()> {
+        // The local store path must really store: `DhtCoreEngine::store` keeps a copy
+        // only when the local node is among the closest it knows, which is never the
+        // case once any peer is known.
         self.dht
-            .write()
+            .read()
             .await
-            .store(&DhtKey::from_bytes(key), value)
+            .store_local(&DhtKey::from_bytes(key), value)
             .await
             .map_err(|e| {
                 P2PError::Dht(crate::error::DhtError::StoreFailed(
@@ -1006,9 +1009,9 @@ impl DhtNetworkManager {
                         info!("Found value via iterative lookup from {}", source);
 
                         // Cache locally
-                        let mut dht_guard = self.dht.write().await;
+                        let dht_guard = self.dht.read().await;
                         if let Err(e) = dht_guard
-                            .store(&DhtKey::from_bytes(*key), value.clone())
+                            .store_local(&DhtKey::from_bytes(*key), value.clone())
                             .await
                         {
                             warn!("Failed to cache retrieved value: {}", e);
